@@ -8,7 +8,8 @@ Read from the C source of the working tree on every run:
   * the await_started budget of setupterm; the default output buffer size of tickit_build;
   * three structural facts of the code that decide which variant of the model mirrors the tree
     (`Cfg`): does setctl_int(KEYPAD_APP) record the mode in the shadow, does tickit_term_resume send the
-    cached pen again, are values the program has set protected from DECRPM/DECRQSS replies that arrive later.
+    cached pen again, are values the program has set (cursor controls; the forced RGB8 capability) protected from
+    DECRPM/DECRQSS replies that arrive later.
 """
 import re
 
@@ -167,6 +168,8 @@ def run(ctx):
     body = func_body(xt, "on_modereport") or ""
     vm = re.search(r"case\s+25\s*:(.*?)break\s*;", body, re.S)
     replies_guarded = bool(vm and re.search(r"!\s*xd\s*->\s*initialised\s*\.\s*cursorvis", vm.group(1)))
+    body = func_body(xt, "on_decrqss") or ""
+    rgb8_guarded = bool(re.search(r"!\s*xd\s*->\s*initialised\s*\.\s*rgb8", body))
     body = func_body(xt, "chpen") or ""
     um = re.search(r"case\s+TICKIT_PEN_UNDER\s*:(.*?)break\s*;", body, re.S)
     under_safe = bool(um and re.search(r"!\s*xd\s*->\s*cap\s*\.\s*csi_sub_colon", um.group(1))
@@ -176,7 +179,8 @@ def run(ctx):
     out.append(f"def keypadRecorded : Bool := {'true' if keypad_recorded else 'false'}")
     out.append(f"def resumeResendsPen : Bool := {'true' if resume_resends else 'false'}")
     out.append(f"def repliesGuarded : Bool := {'true' if replies_guarded else 'false'}")
-    facts.update(underStyleSafe=under_safe, keypadRecorded=keypad_recorded, resumeResendsPen=resume_resends, repliesGuarded=replies_guarded,
+    out.append(f"def rgb8Guarded : Bool := {'true' if rgb8_guarded else 'false'}")
+    facts.update(underStyleSafe=under_safe, keypadRecorded=keypad_recorded, resumeResendsPen=resume_resends, repliesGuarded=replies_guarded, rgb8Guarded=rgb8_guarded,
                  sgr_on=on, sgr_off=off, mode_for_mouse=pairs)
 
     write("ModeLayout", "namespace Tickit.Gen.ModeLayout\n" + "\n".join(out) + "\nend Tickit.Gen.ModeLayout\n")
